@@ -177,6 +177,86 @@ theorem sf_step {st : St} (hp : PInv st) (h : SF st) (ev : Ev) : SF (step st ev)
             · exact Or.inr hx
             · exact Or.inl hx
         · intro x hx _; rw [hl]; exact List.mem_append_left _ hx
+  | startDone k c ttl now err =>
+    simp only [step]
+    split
+    · exact h
+    · rename_i hopen
+      have o := Lru.flight_cases st.store k c ttl now
+      have hi1 := Lru.inv_flight hi k c ttl now
+      generalize hr : (Lru.flight st.store k c ttl now).2 = r at o
+      generalize hs1 : (Lru.flight st.store k c ttl now).1 = s1 at o hi1
+      -- the call became the fetcher, nothing is written, its own flight is cancelled: the pending entries are as before
+      have miss : (∀ x ∈ st.store.list, x.pend = true → ¬ (x.key = k ∧ x.cmd = c)) →
+          (∀ x ∈ s1.list, x.pend = true → x = Lru.newEntry st.store k c ttl now ∨ x ∈ st.store.list) →
+          (∀ x ∈ st.store.list, x.pend = true → x ∈ s1.list) →
+          SF { st with store := Lru.cancel s1 k c err } := by
+        intro hnone hold hkeep
+        refine ⟨h.nodup, ?_, ?_⟩
+        · intro kc hkc
+          obtain ⟨e, he, hk, hc, hpe⟩ := h.pend_of kc hkc
+          have hne : ¬ (e.key = k ∧ e.cmd = c) := hnone e he hpe
+          refine ⟨e, Lru.pending_persists hi1 (hkeep e he hpe) hpe (.cancel k c err) ?_, hk, hc, hpe⟩
+          simp only [Lru.Op.resolves]
+          simpa using (fun (h1 : k = e.key) (h2 : c = e.cmd) => hne ⟨h1.symm, h2.symm⟩)
+        · intro x hx hpx
+          obtain ⟨hx1, hne⟩ := Lru.cancel_pending_sub s1 hi1 k c err x hx hpx
+          rcases hold x hx1 hpx with rfl | hxo
+          · exact absurd ⟨rfl, rfl⟩ hne
+          · exact h.flight_of x hxo hpx
+      cases o with
+      | closed hc hs hr' => exact absurd hc hopen
+      | found e hc hf hv hr' hl hsz hn fr =>
+        have hns : r ≠ .send := by rw [hr']; unfold Lru.resOf; split <;> simp
+        simp only [hns, if_false]
+        have hmem : ∀ x, x ∈ s1.list ↔ x ∈ st.store.list := by
+          intro x
+          rcases hl with hl | hl
+          · rw [hl]
+          · rw [hl]; simp only [Lru.moveToBack, List.mem_append, List.mem_singleton]
+            have he := (Lru.find?_some hf).1
+            constructor
+            · rintro (hx | hx)
+              · exact List.mem_of_mem_erase hx
+              · exact hx ▸ he
+            · intro hx
+              by_cases hxe : x = e
+              · exact Or.inr hxe
+              · exact Or.inl ((List.mem_erase_of_ne hxe).2 hx)
+        exact ⟨h.nodup, fun kc hkc => by
+            obtain ⟨e', he', hk, hc', hpe⟩ := h.pend_of kc hkc
+            exact ⟨e', (hmem e').2 he', hk, hc', hpe⟩,
+          fun e' he' hpe => h.flight_of e' ((hmem e').1 he') hpe⟩
+      | expired e hc hf hv hr' hl hsz hn fr =>
+        have hf' := Lru.find?_some hf
+        have hpe : e.pend = false := by
+          cases hpp : e.pend
+          · rfl
+          · simp [Lru.valid, hpp] at hv
+        simp only [hr', if_true]
+        apply miss
+        · intro x hx hpx hkc
+          have := hi.nodup.eq_of_sameKC hx hf'.1 ⟨hkc.1.trans hf'.2.1.symm, hkc.2.trans hf'.2.2.symm⟩
+          rw [this, hpe] at hpx; cases hpx
+        · intro x hx _
+          rw [hl] at hx
+          rcases List.mem_append.1 hx with hx | hx
+          · exact Or.inr (List.mem_of_mem_erase hx)
+          · left; simpa using hx
+        · intro x hx hpx
+          rw [hl]
+          have : x ≠ e := by intro hh; rw [hh, hpe] at hpx; cases hpx
+          exact List.mem_append_left _ ((List.mem_erase_of_ne this).2 hx)
+      | absent hc hf hr' hl hsz hn fr =>
+        simp only [hr', if_true]
+        apply miss
+        · intro x hx _ hkc; exact Lru.find?_none hf x hx hkc
+        · intro x hx _
+          rw [hl] at hx
+          rcases List.mem_append.1 hx with hx | hx
+          · exact Or.inr hx
+          · left; simpa using hx
+        · intro x hx _; rw [hl]; exact List.mem_append_left _ hx
   | exec vsz pttl =>
     simp only [step]
     split
